@@ -1,5 +1,138 @@
 package rv
 
-// Sensitivity is filled in by sensitivity_run.go (thorough tier): apply each mutant of the
-// property's corpus to a scratch copy of the current tree and record how many are flagged.
-var Sensitivity = func(r *Report, prop, repo, verif string) {}
+import (
+	"fmt"
+	"os"
+	"os/exec"
+	"path/filepath"
+	"sort"
+	"strings"
+	"sync"
+)
+
+// Sensitivity (thorough tier) measures what the rules of one property can see: every change of
+// the property's corpus - hand-written mutants (selftest/mutants/<Cnn>-*.diff), the confirmed
+// changes seeded by independent sub-agents (seeded/<Cnn>-*/patch.diff), and the reverse of every
+// fix commit recorded for the property (selftest/fixes/<commit>.diff) - is applied to a scratch
+// copy of the *current* /repo tree and the quick check is run on it in a child process; benign
+// variants (selftest/benign) must stay silent. The outcome is recorded in the evidence; it never
+// changes the verdict on the unchanged tree (a corpus entry that no longer applies is reported as
+// such).
+var Sensitivity = func(r *Report, prop, repo, verif string) { runSensitivity(r, prop, repo, verif) }
+
+type sensCase struct {
+	Name    string `json:"name"`
+	Kind    string `json:"kind"` // mutant | seeded | reverted-fix | benign
+	Outcome string `json:"outcome"`
+	patch   string
+	reverse bool
+}
+
+func runSensitivity(r *Report, prop, repo, verif string) {
+	var cases []*sensCase
+	add := func(kind, pattern string, reverse bool) {
+		ms, _ := filepath.Glob(pattern)
+		sort.Strings(ms)
+		for _, m := range ms {
+			name := filepath.Base(m)
+			if name == "patch.diff" {
+				name = filepath.Base(filepath.Dir(m))
+			}
+			cases = append(cases, &sensCase{Name: name, Kind: kind, patch: m, reverse: reverse})
+		}
+	}
+	add("mutant", filepath.Join(verif, "selftest", "mutants", prop+"-*.diff"), false)
+	add("seeded", filepath.Join(verif, "seeded", prop+"-*", "patch.diff"), false)
+	add("benign", filepath.Join(verif, "selftest", "benign", prop+"-*.diff"), false)
+	if known, err := loadKnown(filepath.Join(verif, "known_findings.json")); err == nil {
+		seen := map[string]bool{}
+		for _, k := range known {
+			if k.Property == prop && k.Status == "fixed" && k.Commit != "" && !seen[k.Commit] {
+				seen[k.Commit] = true
+				add("reverted-fix", filepath.Join(verif, "selftest", "fixes", k.Commit+".diff"), true)
+			}
+		}
+	}
+	if len(cases) == 0 {
+		r.Extra["sensitivity"] = "no corpus for this property"
+		return
+	}
+	self, err := os.Executable()
+	if err != nil {
+		r.Extra["sensitivity"] = "cannot locate the checker binary: " + err.Error()
+		return
+	}
+	sem := make(chan struct{}, 4)
+	var wg sync.WaitGroup
+	for _, c := range cases {
+		wg.Add(1)
+		go func(c *sensCase) {
+			defer wg.Done()
+			sem <- struct{}{}
+			defer func() { <-sem }()
+			c.Outcome = runCase(self, prop, repo, verif, c)
+		}(c)
+	}
+	wg.Wait()
+	sum := map[string]int{}
+	var missed, noapply, noisy []string
+	for _, c := range cases {
+		sum[c.Kind+":"+c.Outcome]++
+		switch {
+		case c.Outcome == "does-not-apply" || strings.HasPrefix(c.Outcome, "error"):
+			noapply = append(noapply, c.Name)
+		case c.Kind == "benign" && c.Outcome == "flagged":
+			noisy = append(noisy, c.Name)
+		case c.Kind != "benign" && c.Outcome == "silent":
+			missed = append(missed, c.Name)
+		}
+	}
+	r.Extra["sensitivity"] = map[string]any{
+		"what":                   "each corpus change applied to a scratch copy of the current tree, quick check run on it in a child process",
+		"cases":                  cases,
+		"summary":                sum,
+		"changes_not_flagged":    missed,
+		"benign_flagged":         noisy,
+		"not_applicable_anymore": noapply,
+	}
+	fmt.Printf("%s sensitivity: %d corpus changes, %d not flagged %v, %d benign flagged %v, %d not applicable %v\n", prop, len(cases), len(missed), missed, len(noisy), noisy, len(noapply), noapply)
+}
+
+func runCase(self, prop, repo, verif string, c *sensCase) string {
+	scratch, err := os.MkdirTemp("", "rvsens.")
+	if err != nil {
+		return "error: " + err.Error()
+	}
+	defer os.RemoveAll(scratch)
+	sr, sv := filepath.Join(scratch, "repo"), filepath.Join(scratch, "verif")
+	if out, err := exec.Command("rsync", "-a", "--exclude", ".git", repo+"/", sr+"/").CombinedOutput(); err != nil {
+		return "error: copy: " + string(out)
+	}
+	os.MkdirAll(sv, 0o755)
+	if b, err := os.ReadFile(filepath.Join(verif, "known_findings.json")); err == nil {
+		os.WriteFile(filepath.Join(sv, "known_findings.json"), b, 0o644)
+	}
+	args := []string{"-p1", "-s", "-f", "-i", c.patch}
+	if c.reverse {
+		args = append(args, "-R")
+	}
+	pc := exec.Command("patch", args...)
+	pc.Dir = sr
+	if err := pc.Run(); err != nil {
+		return "does-not-apply"
+	}
+	cmd := exec.Command(self, "-prop", prop, "-tier", "quick", "-repo", sr, "-verif", sv)
+	cmd.Env = append(os.Environ(), "GOWORK=off")
+	out, err := cmd.CombinedOutput()
+	if err == nil {
+		return "silent"
+	}
+	if _, isExit := err.(*exec.ExitError); !isExit {
+		return "error: " + err.Error()
+	}
+	if strings.Contains(string(out), "reason=checker-error") && !strings.Contains(string(out), "violated R") {
+		// a change that does not type-check is flagged by construction, but say so
+		return "flagged(load-error)"
+	}
+	return "flagged"
+}
